@@ -199,6 +199,22 @@ func c19Protocol(c *core.Ctx) {
 				}
 			}
 			if loc.Valid() {
+				// the signal must be delivered: a send inside a select with a default arm can be dropped, which leaves the
+				// waiting goroutine parked forever on a stopped timer
+				droppable := false
+				ast.Inspect(st.Body, func(y ast.Node) bool {
+					sel, isSel := y.(*ast.SelectStmt)
+					if !isSel || !(sel.Pos() <= pos && pos <= sel.End()) {
+						return true
+					}
+					for _, cc := range sel.Body.List {
+						if cc.(*ast.CommClause).Comm == nil {
+							droppable = true
+						}
+					}
+					return true
+				})
+				c.Check(R, timerStopKey+"/signal-is-blocking", pos, !droppable, "the stop signal is a blocking send or a close, never a select with default (a dropped signal leaks the timer goroutine)")
 				n++
 				// signalling on the Stop()==false edge would block forever (nobody is receiving) or double-signal
 				wrong := g.GuardedBy(loc, func(u *core.Unit, br core.Branch) int { return -stopTrue(u, br) })
